@@ -26,6 +26,10 @@ pub enum DFault {
     /// kind: "REAL" | "VideotexString" | "inverted-range" | "MACRO"
     Replace { module: usize, assign: usize, kind: String },
     LexGarbage { module: usize },
+    /// a lexer failure located exactly at the END OF A SOURCE: kind "missing-end" (module cut
+    /// after its last complete assignment), "stray-after-end" (text after the last END),
+    /// "header-cut" (a further module header cut short after the last END)
+    LexAtEnd { module: usize, kind: String },
 }
 
 #[derive(Clone, Debug, Serialize, Deserialize, PartialEq)]
@@ -51,8 +55,22 @@ fn parse_plan(v: &Value) -> Plan {
     serde_json::from_value(v.clone()).expect("c10 plan")
 }
 
-fn srcs_of(set: &ModuleSet, one: bool, garbage: &[usize]) -> Vec<Src> {
+fn srcs_of_ext(set: &ModuleSet, one: bool, garbage: &[usize], at_end: &[(usize, String)]) -> Vec<Src> {
     let mut texts = set.texts();
+    for (mi, kind) in at_end {
+        if let Some(t) = texts.get_mut(*mi) {
+            match kind.as_str() {
+                "missing-end" => {
+                    let r = set.modules[*mi].render(&set.modules);
+                    let cut = r.assigns.last().map(|s| s.end).unwrap_or(r.header.end);
+                    t.truncate(cut);
+                    t.push('\n');
+                }
+                "stray-after-end" => t.push_str("stray text after the end\n"),
+                _ => t.push_str("Next-Module DEFINITIONS AUTO"),
+            }
+        }
+    }
     for g in garbage {
         if let Some(t) = texts.get_mut(*g) {
             // directly after the module header, in front of the first assignment: no
@@ -66,6 +84,10 @@ fn srcs_of(set: &ModuleSet, one: bool, garbage: &[usize]) -> Vec<Src> {
     } else {
         texts.into_iter().map(Src::Literal).collect()
     }
+}
+
+fn srcs_of(set: &ModuleSet, one: bool, garbage: &[usize]) -> Vec<Src> {
+    srcs_of_ext(set, one, garbage, &[])
 }
 
 /// names of assignments that depend (transitively) on `name` of module `mi`
@@ -168,7 +190,8 @@ impl Scenario for C10Faults {
                     DFault::Replace { module, assign, kind: f.pick(kinds).to_string() }
                 }
                 5..=8 => DFault::BuggifyGenerate { module, assign },
-                _ => DFault::LexGarbage { module },
+                _ if f.chance(1, 2) => DFault::LexGarbage { module },
+                _ => DFault::LexAtEnd { module, kind: f.pick(&["missing-end", "stray-after-end", "header-cut"]).to_string() },
             });
         }
         let mut simcfg = SimCfg::simple(root.fork("schedule").next_u64());
@@ -180,7 +203,9 @@ impl Scenario for C10Faults {
                 _ => {}
             }
         }
-        serde_json::to_value(&Plan { seed, set, backend, faults, one_literal: w.chance(1, 3), sim: simcfg }).unwrap()
+        // an end-of-source failure needs the faulted module to be (the end of) a source of its own
+        let at_end = faults.iter().any(|f| matches!(f, DFault::LexAtEnd { .. }));
+        serde_json::to_value(&Plan { seed, set, backend, faults, one_literal: !at_end && w.chance(1, 3), sim: simcfg }).unwrap()
     }
 
     /// fault-free run + leave-one-out attribution
@@ -252,7 +277,8 @@ impl Scenario for C10Faults {
         let rust = matches!(p.backend, BackendSel::Rasn(_));
         let (fset, renamed) = faulted_set(&p);
         let garbage: Vec<usize> = p.faults.iter().filter_map(|f| if let DFault::LexGarbage { module } = f { Some(*module) } else { None }).collect();
-        let srcs = srcs_of(&fset, p.one_literal, &garbage);
+        let at_end: Vec<(usize, String)> = p.faults.iter().filter_map(|f| if let DFault::LexAtEnd { module, kind } = f { Some((*module, kind.clone())) } else { None }).collect();
+        let srcs = srcs_of_ext(&fset, p.one_literal, &garbage, &at_end);
         // contextualize() is only meaningful against the source an error belongs to; with several
         // literal sources that is unknowable (src_file is None), so it is exercised only when
         // there is exactly one source
@@ -277,6 +303,7 @@ impl Scenario for C10Faults {
                     DFault::BuggifyValidate { .. } => "buggify-validate".to_string(),
                     DFault::Replace { kind, .. } => format!("replace-{kind}"),
                     DFault::LexGarbage { .. } => "lex-garbage".to_string(),
+                    DFault::LexAtEnd { kind, .. } => format!("lex-at-end-{kind}"),
                 }),
                 1,
             );
@@ -294,6 +321,7 @@ impl Scenario for C10Faults {
                     DFault::BuggifyValidate { module, assign } => format!("validate({}) fails", p.set.modules[*module].assigns[*assign].name),
                     DFault::Replace { module, assign, kind } => format!("{} replaced by {kind}", p.set.modules[*module].assigns[*assign].name),
                     DFault::LexGarbage { module } => format!("module {} does not lex", p.set.modules[*module].name),
+                    DFault::LexAtEnd { module, kind } => format!("module {} fails to lex at the very end of its source ({kind})", p.set.modules[*module].name),
                 })
                 .collect::<Vec<_>>(),
             r1.brief()
@@ -305,8 +333,11 @@ impl Scenario for C10Faults {
             return out;
         }
         // oracle 3: Err carries nothing
-        if !garbage.is_empty() {
+        if !garbage.is_empty() || !at_end.is_empty() {
             out.count("lexer_failure_runs", 1);
+            if !at_end.is_empty() {
+                out.count("probe.lexer_failure_exactly_at_end_of_a_source", 1);
+            }
             if r1.ok {
                 out.violate("err-when-a-source-does-not-lex", format!("a source does not lex but the result is Ok with {} bytes of bindings; {ctx}", r1.generated.len()));
             }
